@@ -587,10 +587,13 @@ Ftp::Client::handleEpsvReply(Ip::Address &remoteAddr)
     buf = ctrl.last_reply + strcspn(ctrl.last_reply, "(");
 
     char h1, h2, h3, h4;
-    unsigned short port;
-    int n = sscanf(buf, "(%c%c%c%hu%c)", &h1, &h2, &h3, &port, &h4);
+    // At most five digits: a longer number cannot be a port. Do not scan into
+    // an unsigned short: %hu silently reduces the number modulo 65536.
+    unsigned int port = 0;
+    int n = sscanf(buf, "(%c%c%c%5u%c)", &h1, &h2, &h3, &port, &h4);
 
-    if (n < 4 || h1 != h2 || h1 != h3 || h1 != h4) {
+    // all five items are needed: h4 is not assigned when n is 4
+    if (n < 5 || h1 != h2 || h1 != h3 || h1 != h4) {
         debugs(9, DBG_IMPORTANT, "ERROR: Invalid EPSV reply from " <<
                ctrl.conn->remote << ": " <<
                ctrl.last_reply);
@@ -598,7 +601,7 @@ Ftp::Client::handleEpsvReply(Ip::Address &remoteAddr)
         return sendPassive();
     }
 
-    if (0 == port) {
+    if (0 == port || port > 65535) {
         debugs(9, DBG_IMPORTANT, "Unsafe EPSV reply from " <<
                ctrl.conn->remote << ": " <<
                ctrl.last_reply);
@@ -617,7 +620,7 @@ Ftp::Client::handleEpsvReply(Ip::Address &remoteAddr)
     }
 
     remoteAddr = ctrl.conn->remote;
-    remoteAddr.port(port);
+    remoteAddr.port(static_cast<unsigned short>(port));
     data.addr(remoteAddr);
     return true;
 }
